@@ -130,10 +130,13 @@ type RegState struct {
 	Members []int         // service ids in Add order
 	Routes  map[int][]int // service id -> route ids in Route order (for every known service)
 	Plain   []int         // plain handler ids in Handle order
+	// Twins: route id -> all route ids of the same service with the same method and path (itself
+	// included). RemoveRoute(path, method) removes them all. Immutable, shared between states.
+	Twins map[int][]int
 }
 
 func (s RegState) Clone() RegState {
-	c := RegState{Members: append([]int{}, s.Members...), Routes: map[int][]int{}, Plain: append([]int{}, s.Plain...)}
+	c := RegState{Members: append([]int{}, s.Members...), Routes: map[int][]int{}, Plain: append([]int{}, s.Plain...), Twins: s.Twins}
 	for k, v := range s.Routes {
 		c.Routes[k] = append([]int{}, v...)
 	}
@@ -215,6 +218,9 @@ func (s RegState) Apply(o AdminOp) RegState {
 		n.Routes[o.Svc] = append(n.Routes[o.Svc], o.Route)
 	case "unroute":
 		n.Routes[o.Svc] = removeInt(n.Routes[o.Svc], o.Route)
+		for _, tw := range n.Twins[o.Route] {
+			n.Routes[o.Svc] = removeInt(n.Routes[o.Svc], tw)
+		}
 	case "handle", "handlef":
 		n.Plain = append(n.Plain, o.Plain)
 	case "handle-dup":
